@@ -164,4 +164,228 @@ def missing408 (rs : Ranges) (finalBlock : Option Nat) : List Nat :=
   | none => gaps
   | some f => gaps ++ (List.range (f + 1 - first)).map (· + first)
 
+/-! ## payload-set arithmetic (round R02Qb)
+
+  coap_request_missing_q_block2                      `reqMissingQ2`  (client: which Q-Block2 numbers one recovery request names)
+  coap_send_q_blocks (NON, datagram transport)        `sendQNon`      (which blocks follow the first one of a burst)
+  coap_handle_response_get_block, the Q-Block2 path   `q2Step`        (client: rec_blocks / total_len / processing_payload_set
+                                                                       bookkeeping for one arriving 2.xx response)
+
+`int block = -1` is `Option Nat` with `nxt` as above; allocation / transmission (coap_build_missing_pdu,
+coap_pdu_duplicate_lkd, coap_send_internal, coap_block_build_body) succeed: external. -/
+
+/-- `for (; block < lim && block_payload_set == block / MAX_PAYLOADS; block++) coap_insert_option(Q-Block2 block)`; the
+fuel is `lim - block` at the call.  Result: the final `block` and the numbers listed. -/
+def reqRun (mp bps lim : Nat) : Nat → Nat → List Nat → Nat × List Nat
+  | 0, block, acc => (block, acc)
+  | f + 1, block, acc =>
+    if block < lim ∧ block / mp = bps then reqRun mp bps lim f (block + 1) (acc ++ [block]) else (block, acc)
+
+/-- `if (block_payload_set == -1) block_payload_set = block / COAP_MAX_PAYLOADS(session);` -/
+def setBps (mp : Nat) (bps : Option Nat) (block : Nat) : Nat :=
+  match bps with
+  | some s => s
+  | none => block / mp
+
+/-- `if (block < (int)range[i].end) block = range[i].end;` -/
+def bumpTo (block : Option Nat) (e : Nat) : Option Nat :=
+  match block with
+  | none => some e
+  | some k => if k < e then some e else some k
+
+/-- the `for (i = 0; i < rec_blocks.used; i++)` loop of `coap_request_missing_q_block2`: state `block`,
+`block_payload_set`, the numbers listed so far -/
+def reqGaps (mp : Nat) : Ranges → Option Nat → Option Nat → List Nat → Option Nat × Option Nat × List Nat
+  | [], block, bps, acc => (block, bps, acc)
+  | (b, e) :: rest, block, bps, acc =>
+    if nxt block ≤ b ∧ b ≠ 0 then
+      let s := setBps mp bps (nxt block)
+      let r := reqRun mp s b (b - nxt block) (nxt block) acc
+      reqGaps mp rest (bumpTo (some r.1) e) (some s) r.2
+    else
+      reqGaps mp rest (bumpTo block e) bps acc
+
+/-- the test in front of the `M` variant (`COAP_BLOCK_USE_M_Q_BLOCK`): `used && (used < 2 || (range[0].end + 1) / MP !=
+(range[1].begin - 1) / MP)` in `uint32_t` arithmetic; `some (range[0].end + 1)` when it holds -/
+def mVariant (mp : Nat) : Ranges → Option Nat
+  | [] => none
+  | [(_, e0)] => some (e0 + 1)
+  | (_, e0) :: (b1, _) :: _ =>
+    if ((e0 + 1) % 2 ^ 32) / mp ≠ ((b1 + 2 ^ 32 - 1) % 2 ^ 32) / mp then some (e0 + 1) else none
+
+/-- what one call of `coap_request_missing_q_block2` asks for: the Q-Block2 options (NUM, M) of the one request it sends
+(`[]`: none is sent) and the new `processing_payload_set` (`none`: unchanged). -/
+def reqMissingQ2 (mp : Nat) (useM : Bool) (rs : Ranges) (szx totalLen : Nat) : List (Nat × Nat) × Option Nat :=
+  let bs := 2 ^ (szx + 4)
+  let viaM : Option Nat := if useM then mVariant mp rs else none
+  let mOk : Option Nat := match viaM with
+    | some blk => if blk * bs < totalLen then some blk else none
+    | none => none
+  match mOk with
+  | some blk => ([(blk, 1)], some (blk / mp))
+  | none =>
+    let g := reqGaps mp rs none none []
+    if nxt g.1 * bs < totalLen then
+      let nb := (totalLen + bs - 1) / bs
+      let s := setBps mp g.2.1 (nxt g.1)
+      let t := reqRun mp s nb (nb - nxt g.1) (nxt g.1) g.2.2
+      (t.2.map (fun n => (n, 0)), some s)
+    else
+      (g.2.2.map (fun n => (n, 0)), g.2.1)
+
+/-- the `while (block_pdu)` loop of `coap_send_q_blocks` for a Non-confirmable message on a datagram transport: `num` is the
+block sent before; lists (NUM, M) of the blocks sent.  `coap_add_block` refusing (`len <= start`) ends it. -/
+def sendQLoop (mp len szx : Nat) : Nat → Nat → List (Nat × Nat) → List (Nat × Nat)
+  | 0, _, acc => acc
+  | f + 1, num, acc =>
+    let n := num + 1
+    if len ≤ blockOffset n szx then acc
+    else if moreBit len n szx = 1 ∧ (n % mp) + 1 ≠ mp then sendQLoop mp len szx f n (acc ++ [(n, 1)])
+    else acc ++ [(n, moreBit len n szx)]
+
+/-- `coap_send_q_blocks(session, lg_xmit, block, pdu, …)`, NON, datagram: the blocks that FOLLOW block `num` (which the
+caller's PDU carries: sent first with COAP_SEND_INC_PDU, already sent with COAP_SEND_SKIP_PDU).  The test in front looks at
+`num + 1`: `block.m && ((block.num + 1) % MAX_PAYLOADS) + 1 != MAX_PAYLOADS`. -/
+def sendQNon (mp len szx num : Nat) (m : Bool) : List (Nat × Nat) :=
+  if m = true ∧ ((num + 1) % mp) + 1 ≠ mp then sendQLoop mp len szx len num [] else []
+
+/-! ### the client's Q-Block2 bookkeeping for one arriving response -/
+
+structure Q2State where
+  initial : Bool
+  etagSet : Bool
+  etag : Bytes
+  totalLen : Nat
+  fmt : Nat
+  szx : Nat
+  rs : Ranges
+  processing : Nat
+  latest : Nat
+  deriving Repr, DecidableEq
+
+/-- one 2.xx response with a Q-Block2 option (NUM < 2^20, M, SZX ≤ 6 as `coap_get_block_b` delivers them), its payload
+length, Size2, ETag, Content-Format -/
+structure Q2In where
+  num : Nat
+  m : Nat
+  szx : Nat
+  length : Nat
+  size2 : Option Nat
+  etag : Option Bytes
+  fmt : Nat
+  deriving Repr, DecidableEq
+
+inductive Q2End where
+  | notBlock    -- `!(have_block && (block.m || length))`
+  | expire402   -- undersized: 4.02, `goto expire_lg_crcv`
+  | fail        -- `goto fail_resp`
+  | skip        -- `goto skip_app_handler`
+  | next        -- the `continue` request for the next payload set was sent, then skip_app_handler
+  | app         -- `give_to_app`: the body is complete
+  deriving Repr, DecidableEq
+
+/-- the body of `if (lg_crcv->initial)` (also the target of `goto reinit`) -/
+def q2Reinit (st : Q2State) (i : Q2In) (size2 : Nat) : Q2State :=
+  { st with initial := false,
+            etagSet := i.etag.isSome,
+            etag := (match i.etag with | some e => e | none => st.etag),
+            totalLen := size2, fmt := i.fmt, szx := i.szx, rs := [], processing := 0 }
+
+def size2Of : Option Nat → Nat
+  | some v => v
+  | none => 0
+
+/-- `size2` after `if (size2 < offset + length) size2 = offset + length + (block.m ? 1 : 0)` -/
+def q2Size2 (i : Q2In) (length : Nat) : Nat :=
+  let offset := i.num * 2 ^ (i.szx + 4)
+  if size2Of i.size2 < offset + length then (if i.m = 1 then offset + length + 1 else offset + length) else size2Of i.size2
+
+/-- `full_match(etag_opt value, lg_crcv->etag)` fails -/
+def etagDiffers (st : Q2State) : Option Bytes → Bool
+  | some e => decide (e ≠ st.etag)
+  | none => false
+
+/-- `if (lg_crcv->initial) { … }` -/
+def q2Init (st : Q2State) (i : Q2In) (size2 : Nat) : Q2State := if st.initial then q2Reinit st i size2 else st
+
+/-- `if (lg_crcv->total_len < size2) lg_crcv->total_len = size2;` -/
+def q2Bump (st : Q2State) (size2 : Nat) : Q2State := if st.totalLen < size2 then { st with totalLen := size2 } else st
+
+/-- ETag differs: Q-Block2 → `goto reinit` (and down again: now it matches) -/
+def q2Etag (st : Q2State) (i : Q2In) (size2 : Nat) : Q2State := if etagDiffers st i.etag then q2Reinit st i size2 else st
+
+/-- the tests that end in `fail_resp`: ETag missing, Content-Format, block size, Size2 -/
+def q2Fails (st : Q2State) (i : Q2In) (size2 : Nat) : Bool :=
+  if i.etag.isNone ∧ st.etagSet then true
+  else if i.fmt ≠ st.fmt then true
+  else if i.szx ≠ st.szx then true
+  else if size2 ≠ st.totalLen then true
+  else false
+
+/-- from `if (lg_crcv->initial)` to the Size2 test: the state, and whether `fail_resp` is taken -/
+def q2Pre (st : Q2State) (i : Q2In) (size2 : Nat) : Q2State × Bool :=
+  let st3 := q2Etag (q2Bump (q2Init st i size2) size2) i size2
+  (st3, q2Fails st3 i size2)
+
+/-- inside the loop, in front of `update_received_blocks`: a block of a later payload set than the one being processed (and
+not the set of the block seen last) → `coap_request_missing_q_block2`; `latest_payload_set = this_payload_set` -/
+def q2Asked (mp : Nat) (useM : Bool) (st : Q2State) (num : Nat) : Q2State × List (List (Nat × Nat)) :=
+  let thisSet := num / mp
+  let rq := reqMissingQ2 mp useM st.rs st.szx st.totalLen
+  if st.rs ≠ [] ∧ thisSet > st.processing ∧ thisSet ≠ st.latest then
+    ({ st with processing := (match rq.2 with | some s => s | none => st.processing), latest := thisSet },
+     if rq.1 ≠ [] then [rq.1] else [])
+  else ({ st with latest := thisSet }, [])
+
+/-- the `while (offset < saved_offset + length)` loop: ONE iteration for Q-Block2 on a datagram transport (0 < length ≤
+chunk).  State, recovery requests sent, `updated_block` (`none` = `update_received_blocks` refused: `fail_resp`). -/
+def q2Record (cap mp : Nat) (useM : Bool) (st : Q2State) (num : Nat) : Q2State × List (List (Nat × Nat)) × Option Bool :=
+  if checkIfReceived st.rs num then (st, [], some false)
+  else
+    let a := q2Asked mp useM st num
+    let u := updateReceived cap a.1.rs num
+    if u.1 then ({ a.1 with rs := u.2 }, a.2, some true) else (a.1, a.2, none)
+
+/-- `range[0].end` -/
+def firstEnd : Ranges → Nat
+  | [] => 0
+  | (_, e) :: _ => e
+
+/-- behind the loop (`if (updated_block)`), COAP_BLOCK_SINGLE_BODY, datagram transport -/
+def q2Decide (mp : Nat) (useM isNon : Bool) (st : Q2State) (m : Nat) : Q2State × List (List (Nat × Nat)) × Q2End :=
+  let chunk := 2 ^ (st.szx + 4)
+  let nb := (st.totalLen + chunk - 1) / chunk
+  if m = 1 then
+    if checkAllBlocksIn st.rs nb then ({ st with initial := true }, [], .app)
+    else if allInForPayloadSet mp st.rs st.processing then
+      let num := firstEnd st.rs
+      let st1 := { st with processing := num / mp + 1 }
+      if anyNextPayloadSet mp st1.rs st1.processing then
+        let rq := reqMissingQ2 mp useM st1.rs st1.szx st1.totalLen
+        ({ st1 with processing := (match rq.2 with | some s => s | none => st1.processing) }, (if rq.1 ≠ [] then [rq.1] else []), .skip)
+      else if !isNon then (st1, [], .skip)
+      else (st1, [[(num + 1, 1)]], .next)
+    else (st, [], .skip)
+  else if !checkAllBlocksIn st.rs nb then (st, [], .skip)
+  else ({ st with initial := true }, [], .app)
+
+/-- one arriving response -/
+def q2Step (cap mp : Nat) (useM isNon : Bool) (st : Q2State) (i : Q2In) : Q2State × List (List (Nat × Nat)) × Q2End :=
+  if ¬ (i.m = 1 ∨ i.length ≠ 0) then (st, [], .notBlock)
+  else
+    let chunk := 2 ^ (i.szx + 4)
+    let length := if i.length > chunk then chunk else i.length
+    if i.m = 1 ∧ length ≠ chunk then (st, [], .expire402)
+    else
+      let size2 := q2Size2 i length
+      let p := q2Pre st i size2
+      if p.2 then (p.1, [], .fail)
+      else
+        let r := q2Record cap mp useM p.1 i.num
+        if r.2.2 = none then (r.1, r.2.1, .fail)
+        else if r.2.2 = some false then (r.1, r.2.1, .skip)
+        else
+          let d := q2Decide mp useM isNon r.1 i.m
+          (d.1, r.2.1 ++ d.2.1, d.2.2)
+
 end Coap.QBlock
